@@ -28,7 +28,7 @@ func init() {
 }
 
 var concTexts = []string{"a + b * 2", "$t = a, $t + b", "a + b", "[regexp(s1, 'ab'), regexp(s2, '^(a)*$'), regexp(s2, 'ab')]", "(m).a + b",
-	"round(a) * 1000 + roundBank(b)", "round(a) + 1", "lower(s1)", "$c = ($c ?? 0) + 1, $c"}
+	"round(a) * 1000 + roundBank(b)", "round(a) + 1", "lower(s1)", "$c = ($c ?? 0) + 1, $c", "hour(useTimezone(t, z))"}
 var concParseTexts = []string{"'\\u4F11\\u4F34'+'\\x41'", "'\\u0041\\x62\\u4e2d'", "1 +\n (2 *", "1e1_0 + 2.5e-3"}
 
 // concParseBytes: the same byte buffers are handed to every goroutine (a caller may parse one text from many goroutines);
@@ -46,7 +46,31 @@ var concDatas = mustParse(`<< [a |-> <<"int", 1>>, b |-> <<"int", 2>>],
   [s1 |-> <<"str", <<99,97,98>>>>, s2 |-> <<"str", <<97,97,97>>>>],
   [s1 |-> <<"str", <<98,97>>>>, s2 |-> <<"str", <<97,98>>>>],
   [m |-> <<"map", [a |-> <<"int", 4>>]>>, b |-> <<"dec", FALSE, <<1,5>>, -1>>],
-  [a |-> <<"dec", FALSE, <<2,6>>, -1>>, b |-> <<"dec", FALSE, <<4,5>>, -1>>] >>`).([]any)
+  [a |-> <<"dec", FALSE, <<2,6>>, -1>>, b |-> <<"dec", FALSE, <<4,5>>, -1>>],
+  [t |-> <<"time", 19000, 3600000, 0>>, z |-> <<"str", <<65,115,105,97,47,84,111,107,121,111>>>>],
+  [t |-> <<"time", 19000, 3600000, 0>>, z |-> <<"str", <<69,117,114,111,112,101,47,80,97,114,105,115>>>>],
+  [t |-> <<"time", 19000, 3600000, 0>>, z |-> <<"str", <<65,109,101,114,105,99,97,47,67,104,105,99,97,103,111>>>>],
+  [t |-> <<"time", 19000, 3600000, 0>>, z |-> <<"str", <<65,102,114,105,99,97,47,67,97,105,114,111>>>>],
+  [t |-> <<"time", 19000, 3600000, 0>>, z |-> <<"str", <<80,97,99,105,102,105,99,47,65,117,99,107,108,97,110,100>>>>],
+  [t |-> <<"time", 19000, 3600000, 0>>, z |-> <<"str", <<65,115,105,97,47,75,111,108,107,97,116,97>>>>],
+            [t |-> <<"time", 19000, 3600000, 0>>, z |-> <<"str", <<65,109,101,114,105,99,97,47,68,101,110,118,101,114>>>>],
+            [t |-> <<"time", 19000, 3600000, 0>>, z |-> <<"str", <<65,109,101,114,105,99,97,47,83,97,111,95,80,97,117,108,111>>>>],
+            [t |-> <<"time", 19000, 3600000, 0>>, z |-> <<"str", <<69,117,114,111,112,101,47,66,101,114,108,105,110>>>>],
+            [t |-> <<"time", 19000, 3600000, 0>>, z |-> <<"str", <<69,117,114,111,112,101,47,77,97,100,114,105,100>>>>],
+            [t |-> <<"time", 19000, 3600000, 0>>, z |-> <<"str", <<65,115,105,97,47,68,117,98,97,105>>>>],
+            [t |-> <<"time", 19000, 3600000, 0>>, z |-> <<"str", <<65,115,105,97,47,83,101,111,117,108>>>>],
+            [t |-> <<"time", 19000, 3600000, 0>>, z |-> <<"str", <<65,117,115,116,114,97,108,105,97,47,83,121,100,110,101,121>>>>],
+            [t |-> <<"time", 19000, 3600000, 0>>, z |-> <<"str", <<65,102,114,105,99,97,47,76,97,103,111,115>>>>],
+            [t |-> <<"time", 19000, 3600000, 0>>, z |-> <<"str", <<65,109,101,114,105,99,97,47,84,111,114,111,110,116,111>>>>],
+            [t |-> <<"time", 19000, 3600000, 0>>, z |-> <<"str", <<69,117,114,111,112,101,47,82,111,109,101>>>>],
+            [t |-> <<"time", 19000, 3600000, 0>>, z |-> <<"str", <<65,115,105,97,47,66,97,110,103,107,111,107>>>>],
+            [t |-> <<"time", 19000, 3600000, 0>>, z |-> <<"str", <<65,109,101,114,105,99,97,47,76,105,109,97>>>>],
+            [t |-> <<"time", 19000, 3600000, 0>>, z |-> <<"str", <<69,117,114,111,112,101,47,79,115,108,111>>>>],
+            [t |-> <<"time", 19000, 3600000, 0>>, z |-> <<"str", <<65,115,105,97,47,77,97,110,105,108,97>>>>],
+            [t |-> <<"time", 19000, 3600000, 0>>, z |-> <<"str", <<80,97,99,105,102,105,99,47,70,105,106,105>>>>],
+            [t |-> <<"time", 19000, 3600000, 0>>, z |-> <<"str", <<65,109,101,114,105,99,97,47,66,111,103,111,116,97>>>>],
+            [t |-> <<"time", 19000, 3600000, 0>>, z |-> <<"str", <<69,117,114,111,112,101,47,65,116,104,101,110,115>>>>],
+            [t |-> <<"time", 19000, 3600000, 0>>, z |-> <<"str", <<65,115,105,97,47,75,97,114,97,99,104,105>>>>] >>`).([]any)
 
 var (
 	sharedOnce  sync.Once
@@ -349,6 +373,8 @@ func recordConc(args []string) int {
 							di = 3 + (g+it)%2
 						case 8:
 							di = -1 // a runner that is never given a data map
+						case 9:
+							di = 7 + round%24 // every goroutine of a round asks for the same, so far unseen, zone
 						}
 						if di < 0 {
 							o = concOutcome(formula.NewRunner(), trees[ti].Expression)
